@@ -101,3 +101,16 @@ Definition weights_matrix (labels : list nat) (w : list F) : nat * list (list F)
   let '(_, nb, ix) := group_labels [] 0 labels in
   (nb, map (fun s => map (fun i => weights_entry ix w s i) (seq 0 (length labels))) (seq 0 nb)).
 End Weights.
+
+(* ---- the label-based constructors Sensors(labels,positions,orientations,weights,radii[,geometry]) (sensors.h):
+   m_nb(labels.size()), m_names(labels), init_labels: m_pointSensorIdx[i] = getSensorIdx(m_names[i]) = position of the
+   FIRST occurrence of the i-th label.  So the object keeps one row per integration point (rows of repeated labels other
+   than the first occurrence stay empty) and the points of one label are gathered in the row of its first occurrence. ---- *)
+Section Ctor.
+Context {F : Type} (o : Ops F).
+Definition ctor_index (labels : list nat) : list nat :=
+  map (fun l => match index_of labels l with Some k => k | None => 0 end) labels.
+Definition ctor_weights_matrix (labels : list nat) (w : list F) : nat * list (list F) :=
+  let ix := ctor_index labels in let nb := length labels in
+  (nb, map (fun s => map (fun i => weights_entry o ix w s i) (seq 0 (length labels))) (seq 0 nb)).
+End Ctor.
